@@ -405,7 +405,7 @@ Print Assumptions C02_nonvacuous.
 (* The DER containers FROM THE BYTES (Model/KeysDer.v, Proofs/KeysDer.v): the decoding that             *)
 (* encoding/asn1.Unmarshal does for the repository's struct types is inside the model; no recorded        *)
 (* answer of Unmarshal enters these statements.  enc_* are DER writers (X.690, RFC 8017 A.1, RFC 3279);    *)
-(* int_wf n: n has at most 2^23 bits; exp_wf e: e < 2^55 (an exponent that Go's int holds).  [rest]: the   *)
+(* int_wf n: n has at most 2^23 bits; exp_wf e: e < 2^63 (every non-negative value of Go's 64-bit int).  [rest]: the   *)
 (* bytes after the value, which every parse* function of der.go ignores.                                   *)
 (* key_description label alg n = Info label [Algorithm = alg; Size = "<bit length of n> bits"] []          *)
 (* ================================================================== *)
